@@ -559,6 +559,10 @@ func (c *Ctx) trieTraversals() {
 			c.R.Unresolved("topics." + x.typ + "." + x.fn)
 			continue
 		}
+		if c.walkThroughMemory(fn) {
+			c.R.Unknown(ruleP4, x.fn+":splits-input-and-recurses-on-remainder", c.P.Pos(fn.Pos()), x.fn+" keeps the rest of the topic in a data structure (work-list form): the walk is not followed")
+			continue
+		}
 		// the splitter, or a wrapper that applies it to its own argument and hands its remainder through
 		var splits []ssa.CallInstruction
 		for _, call := range ir.Calls(fn) {
@@ -600,7 +604,7 @@ func (c *Ctx) trieTraversals() {
 		c.R.Check(okSplit && okRem, ruleP4, x.fn+":splits-input-and-recurses-on-remainder", c.P.Pos(fn.Pos()), "level, rem := nextTopicLevel(topic); recursion on rem", x.fn+" does not split its own topic argument with nextTopicLevel and recurse on the remainder: insert, remove and match disagree about the levels of a filter")
 	}
 	// smatch: visits every child (range over the children map), '#' child matches here, '+' and the literal child recurse
-	if fn := c.P.Func("topics", "snode", "smatch"); fn != nil {
+	if fn := c.P.Func("topics", "snode", "smatch"); fn != nil && !c.walkThroughMemory(fn) {
 		var rng *ssa.Range
 		for _, b := range fn.Blocks {
 			for _, in := range b.Instrs {
@@ -663,6 +667,10 @@ func (c *Ctx) wildcardCoversParent() {
 	fn := c.P.Func("topics", "snode", "smatch")
 	if fn == nil {
 		c.R.Unresolved("topics.snode.smatch")
+		return
+	}
+	if c.walkThroughMemory(fn) {
+		c.R.Unknown(ruleT9, "smatch:multi-level-wildcard-covers-parent", c.P.Pos(fn.Pos()), "smatch keeps the rest of the topic in a data structure (work-list form): its terminal branch is not identified")
 		return
 	}
 	g := paths.New(c.P, fn, 1)
@@ -806,6 +814,10 @@ func (c *Ctx) endOfLevelsSignal() {
 			continue
 		}
 		key := x.fn + ":end-of-levels-signal-unambiguous"
+		if emptyRem != "" && c.walkThroughMemory(fn) {
+			c.R.Unknown(ruleT9, key, c.P.Pos(fn.Pos()), x.fn+" keeps the rest of the topic in a data structure (work-list form): its terminal test is not identified")
+			continue
+		}
 		// the terminal test: the first branch of the walk on its topic parameter
 		byLen, byNil := false, false
 		tv := c.walkTopicVars(fn)
@@ -856,6 +868,35 @@ func (c *Ctx) endOfLevelsSignal() {
 			c.R.Bad(ruleT9, key, c.P.Pos(fn.Pos()), "the splitter returns an empty remainder after a trailing separator ("+emptyRem+") and "+x.fn+" ends its walk on len(topic) == 0: the empty last level of \"a/\" is dropped, so \"a/\" and \"a\" are the same filter / topic and \"a/+\" does not match \"a/\" (MQTT 4.7.1.1: empty levels are levels)")
 		}
 	}
+}
+
+// walkThroughMemory: the walk keeps its position in a data structure (a work list of (node, rest of the topic)
+// entries) instead of in a parameter or a loop variable: the splitter is applied to a value loaded from memory. The
+// walk rules describe recursion and loops over a topic variable; they do not follow this form and say so (undecided)
+// rather than report it.
+func (c *Ctx) walkThroughMemory(fn *ssa.Function) bool {
+	for _, call := range ir.Calls(fn) {
+		f := call.Common().StaticCallee()
+		if f == nil || !c.isLevelSplitter(f) {
+			continue
+		}
+		ta, _, _ := c.splitterShape(f)
+		if ta >= len(call.Common().Args) {
+			continue
+		}
+		switch v := ir.SeeThrough(call.Common().Args[ta]).(type) {
+		case *ssa.Field:
+			return true
+		case *ssa.UnOp:
+			if v.Op == token.MUL {
+				switch v.X.(type) {
+				case *ssa.FieldAddr, *ssa.IndexAddr:
+					return true
+				}
+			}
+		}
+	}
+	return false
 }
 
 // isLevelSplitter: f is nextTopicLevel or a wrapper (level, rem, err) := wrap(topic) that calls the splitter
